@@ -158,14 +158,14 @@ class LazyMixin:
             return
         fq = z3.Implies(dom, z3.And(*facts))
         fp = auto_patterns([var], fq)
-        self.side_fact(z3.ForAll([var], fq, patterns=fp) if fp else z3.ForAll([var], fq))
+        from .spec import mk_quant
+        self.side_fact(mk_quant("forall", [var], fq, fp, "type-facts"))
 
     def _q(self, kind, var, body):
         from .spec import auto_patterns
         pats = auto_patterns([var], body)
-        q = z3.ForAll if kind == "forall" else z3.Exists
-        qid = f"code:{getattr(self, 'cur_line', 0)}"
-        return q([var], body, patterns=pats, qid=qid) if pats else q([var], body, qid=qid)
+        from .spec import mk_quant
+        return mk_quant(kind, [var], body, pats, f"code:{getattr(self, 'cur_line', 0)}")
 
     def lazy_exists(self, lz: LazySeq, eq_item=None, truthy_elt=False):
         var, dom, cond, elt, pos, facts, _ = self.lazy_at(lz)
